@@ -117,6 +117,14 @@ func installRegexpModel(m *Machine) {
 		s, ok := a[0].(string)
 		return r.MatchString(s), ok
 	})
+	method("Match", func(st *State, r *regexp.Regexp, a []Val) (Val, bool) {
+		b, ok := exactBytes(m, st, a[0])
+		return r.Match(b), ok
+	})
+	method("FindIndex", func(st *State, r *regexp.Regexp, a []Val) (Val, bool) {
+		b, ok := exactBytes(m, st, a[0])
+		return intSlice(st, r.FindIndex(b)), ok
+	})
 	method("FindString", func(st *State, r *regexp.Regexp, a []Val) (Val, bool) {
 		s, ok := a[0].(string)
 		return r.FindString(s), ok
